@@ -618,7 +618,8 @@ namespace Ex
 /-- a chart with one state `[1]` that handles every signal; its handler answers signal 7 by
 posting 9 fifo and then 8 lifo, signal 6 by deferring 6, signal 4 by recalling -/
 def qc0 : QChart :=
-  { chart := { react := fun _ _ => .handled, init := fun _ => none, exitH := fun _ => false, depth := 1 },
+  { chart := { react := fun _ _ => .handled, init := fun _ => none, exitH := fun _ => false, depth := 1,
+               fall := fun _ => false },
     eff := fun _ sig =>
       if sig = .user 7 then [.fifo 9, .lifo 8]
       else if sig = .user 6 then [.defer 6]
